@@ -6,6 +6,7 @@ package template
 
 import (
 	"fmt"
+	"html"
 	"regexp"
 	"strings"
 )
@@ -127,7 +128,7 @@ func sanitizersForAttributeValue(c context) ([]string, error) {
 		// to prevent the injection of any new path segments or URL components. Moreover, they must
 		// not contain any ".." dot-segments.
 		ret = append(ret, queryEscapeURLFuncName, validateTrustedResourceURLSubstitutionFuncName)
-	case strings.ContainsAny(urlAttrValPrefix, "#?"):
+	case strings.ContainsAny(html.UnescapeString(urlAttrValPrefix), "#?"):
 		// For URLs, we only escape in the query or fragment part to prevent the injection of new query
 		// parameters or fragments.
 		ret = append(ret, queryEscapeURLFuncName)
